@@ -285,7 +285,7 @@ impl Prop for C08 {
     }
     fn assumptions(&self) -> Vec<String> {
         vec![
-            "u limited to 3-letter alphabets and lengths 5..7; v, x fixed representatives; ratings limited to the extremes and an adjacent pair (the rating enters ranking through one monotone score component)".into(),
+            "u limited to 3-letter alphabets and lengths 5..7; v, x fixed representatives; ratings limited to {0, 1, 2^31-1}, adjacent pairs and pairs reaching into the upper half of the usize range (the rating enters ranking through one score component)".into(),
             "a search that panics is outside this statement (counted under undecided_panics, inside C01's domain)".into(),
             "nothing is demanded about the relative order of score components the statement does not mention (e.g. tails vs gaps)".into(),
         ]
